@@ -146,6 +146,36 @@ def object_algebra(rng, n):
     return out
 
 
+def run_panic_site_extractor(rep):
+    """tools/extract_panic_sites.py lists every panic-capable construct of /repo's sources (unwrap / expect / panic! /
+    unreachable! / assert! / indexing / slicing / division / panicking std APIs); tools/panic_sites.toml classifies each one
+    (proved by a named theorem, guarded locally, explicit-stack discipline, ...). RsjModel/PanicSites.lean is regenerated
+    from both on every run and RsjProps/C01.lean proves by `decide` that no site is unclassified and no entry is stale:
+    a new unguarded unwrap breaks that proof. Here the same facts are recorded as a broken tie with the keys."""
+    import os
+    import sys
+    sys.path.insert(0, os.path.join(vlib.VERIF, "tools"))
+    try:
+        import extract_panic_sites as ex
+    except Exception as e:  # noqa
+        rep.broken_tie("tools/extract_panic_sites.py cannot be imported", repr(e))
+        return
+    try:
+        sites, unmapped, stale = ex.main_write()
+    except ex.ExtractError as e:
+        rep.broken_tie("extract_panic_sites: cannot list the panic-capable sites of /repo", str(e))
+        return
+    except Exception as e:  # noqa
+        rep.broken_tie("extract_panic_sites crashed", repr(e))
+        return
+    rep.extra["panic_sites"] = len(sites)
+    if unmapped:
+        rep.broken_tie("panic-capable site(s) not classified (tools/panic_sites.toml): " + "; ".join(unmapped[:5]),
+                       "C01_panic_sites_all_classified cannot hold: " + repr(unmapped))
+    if stale:
+        rep.broken_tie("tools/panic_sites.toml is stale (a classified site vanished or a bulk count changed): " + "; ".join(stale[:5]), repr(stale))
+
+
 def run(rep):
     rep.rule = ("(a) random and mutated byte strings as source (ui-tests corpus, stdlib source, generated programs), "
                 "(b) generated core programs, (c) every member of `std` (listed by the implementation itself) applied to a "
@@ -157,7 +187,8 @@ def run(rep):
     rep.assumptions = ["allocator exhaustion (abort on a multi-gigabyte allocation, address space capped at 6 GiB) and the "
                        "time-out of a single request are recorded separately and are not counted as violations (out of scope per DESIGN.md C01)",
                        "native-stack overflow of the recursive parser/analyzer on deeply nested input is a known finding (c01:native-stack)"]
-    vlib.prelude(rep, cli=True, extra_modules=['RsjProps.C04Eval'])
+    run_panic_site_extractor(rep)
+    vlib.prelude(rep, cli=True, extra_modules=['RsjProps.C04Eval', 'RsjProps.C09Eval'])
     rng = rep.rng
     quick = rep.tier == 'quick'
     # ---- corpus
